@@ -682,8 +682,8 @@ pub fn run_c10(ctx: &Ctx) -> i32 {
     let progress = AtomicU64::new(0);
     let current: Mutex<Vec<Option<String>>> = Mutex::new(vec![None; ctx.workers]);
     let shared = Mutex::new(ev0);
-    let grid_total = if miri { 20_000u64.min(GRID) } else { GRID };
-    let grid2_total = if miri { 4_000u64 } else { GRID2 };
+    let grid_total = if miri { 600u64 } else { GRID };
+    let grid2_total = if miri { 300u64 } else { GRID2 };
     let total = grid_total + grid2_total + n_other;
     let done = AtomicU64::new(0);
     std::thread::scope(|s| {
@@ -703,7 +703,7 @@ pub fn run_c10(ctx: &Ctx) -> i32 {
                     }
                     for idx in c..(c + 4096).min(total) {
                         let (bytes, cuts, class): (Vec<u8>, Vec<usize>, Vec<u8>) = if idx < grid_total {
-                            let gi = if miri { (idx * 83) % GRID } else { idx };
+                            let gi = if miri { idx.wrapping_mul(1_000_003).wrapping_add(ctx.seed.wrapping_mul(7_919)) % GRID } else { idx };
                             let other = gi / 256;
                             if !miri && (other + (gi % 256)) % sample_every != offset % sample_every {
                                 continue;
@@ -714,7 +714,7 @@ pub fn run_c10(ctx: &Ctx) -> i32 {
                         } else if idx < grid_total + grid2_total {
                             // second grid: every opcode x key length x extras length 0..21 x body = key + 0..24, so
                             // that the body length walks across each opcode's own fixed-size extras
-                            let gi = if miri { ((idx - grid_total) * 83) % GRID2 } else { idx - grid_total };
+                            let gi = if miri { (idx - grid_total).wrapping_mul(1_000_003).wrapping_add(ctx.seed.wrapping_mul(7_919)) % GRID2 } else { idx - grid_total };
                             let opcode = (gi % 256) as u8;
                             let mut x = gi / 256;
                             let key_len = [1u32, 3, 250][(x % 3) as usize];
